@@ -92,8 +92,19 @@ def gen_terminal(rng, env, depth=0, budget=None):
         if rng.random() < 0.4:
             fs.append(coordexpr(rng, env))
         return sympy.Mul(*fs)
-    if r < 0.93:
+    if r < 0.91:
         return gen_terminal(rng, env, depth + 1) ** 2
+    if r < 0.935:
+        # a power whose exponent is not a number: the exponent is transformed like any other sub-expression
+        # (coordinates -> F, an L2 function gets its 1/det J, a physical derivative its J^-T; seeded change C03-8)
+        a, _ = field_atom(rng, env)
+        b, _ = field_atom(rng, env)
+        k = rng.random()
+        if k < 0.35:
+            return rng.choice([S(2), S(3)]) ** a
+        if k < 0.7:
+            return (1 + b ** 2) ** (1 + coordexpr(rng, env))
+        return (1 + b ** 2) ** rng.choice(env.ops)(a)
     if r < 0.97:
         return gen_terminal(rng, env, depth + 1) / (1 + coordexpr(rng, env) ** 2)
     # derivative of a product (dx evaluates it with the Leibniz rule at construction)
@@ -391,6 +402,13 @@ def check_case(ctx, o, env, e, key, routes=('A', 'B'), limit=40):
             o.count('compare-timeout')
             continue
         o.count('%s:dim%d:%s' % (route, dim, env.mtype))
+        if ok is True and (key is not None or rng.random() < 0.35):
+            sp = special_point(ctx, o, dim, F, orig, new, floats)
+            if sp is not None:
+                o.fail(key + ':' + route if key else 'special-point:%s:%s' % (route, label[:150]),
+                       'route %s: the transformed expression of %s %s (a regular point of the mapping: det J != 0): %s'
+                       % (route, label, sp, str(t)[:300]), expr=label, mapping=[str(f) for f in F])
+                continue
         if ok is None:
             o.count('undecided')
         if ok is False:
@@ -399,6 +417,52 @@ def check_case(ctx, o, env, e, key, routes=('A', 'B'), limit=40):
                    % (route, label, str(t)[:300]), expr=label, mapping=[str(f) for f in F])
         elif len(o.samples) < 5 and nontrivial(e):
             o.samples.append({'expr': label[:200], 'route': route, 'transformed': str(t)[:200]})
+
+
+def special_point(ctx, o, dim, F, orig, new, floats):
+    """the identity also holds at the regular points where an entry of the Jacobian (a pivot of an
+    elimination) vanishes: one logical coordinate is set to 0 or pi/2 EXACTLY (random points never hit such a
+    point; seeded change C03-7 inverted the 3x3 Jacobian by an unsimplified LU, 0/0 where J[0,0] = 0).
+    Returns a description of the failure or None."""
+    from harness.inst import numeval
+    rng = ctx.rng
+    xs = list(LOGI[:dim])
+    x = rng.choice(xs)
+    val = rng.choice([S.Zero, sympy.pi / 2, sympy.pi / 2])
+    rest = [y for y in xs if y != x]
+    detJ = Matrix(dim, dim, lambda i, j: sympy.diff(F[i], xs[j])).det()
+    J00 = sympy.diff(F[0], xs[0])
+    try:
+        with time_limit(30):
+            pts = []
+            for _ in range(2):
+                pt = {y: Rational(rng.randint(2, 30), rng.randint(17, 23)) for y in rest}
+                pt[x] = val
+                d = sympy.sympify(detJ).subs(pt)
+                if d.has(sympy.nan, sympy.zoo) or abs(sympy.N(d, 30)) < 1e-12:
+                    o.count('special-point:singular')
+                    continue
+                pts.append(pt)
+            for pt in pts:
+                tv = [sympy.sympify(a).subs(pt) for a in entries(orig)]
+                if any(a.has(sympy.nan, sympy.zoo, sympy.oo) for a in tv):
+                    o.count('special-point:original-undefined')
+                    continue
+                nv = [sympy.sympify(a).subs(pt) for a in entries(new)]
+                o.count('special-point:%s' % ('pivot-zero' if sympy.sympify(J00).subs(pt) == 0 else 'other'))
+                if len(nv) != len(tv):
+                    return None
+                for a, b in zip(tv, nv):
+                    if b.has(sympy.nan, sympy.zoo, sympy.oo):
+                        return 'has no value (0/0 or 1/0) at the logical point %s where the original is %s' % (pt, sympy.N(a, 12))
+                    va, vb = sympy.N(a, 60), sympy.N(b, 60)
+                    if abs(va - vb) > (1e-9 if floats else 1e-30) * (abs(va) + abs(vb) + 1):
+                        return 'has the value %s at the logical point %s where the original is %s' % (sympy.N(vb, 12), pt, sympy.N(va, 12))
+    except Timeout:
+        o.count('special-point:timeout')
+    except (TypeError, ValueError, ZeroDivisionError, NotImplementedError, AttributeError):
+        o.count('special-point:not-evaluable')
+    return None
 
 
 def fixed_corpus(ctx):
@@ -417,6 +481,17 @@ def fixed_corpus(ctx):
         out.append((env, cc.div(env.vf['hdiv'][0]), 'corpus:div(hdiv) %s %dd' % (mt, dim)))
         if dim > 1:
             out.append((env, cc.curl(env.vf['hcurl'][0]), 'corpus:curl(hcurl) %s %dd' % (mt, dim)))
+        if (dim, mt) == (3, 'poly'):
+            # first derivatives on an analytical 3-D mapping whose Jacobian has vanishing entries at regular points
+            tenv = MEnv(rng, 3, 'torus', tag='c3k')
+            tu = tenv.sf['h1'][0]
+            for kk, op in enumerate(tenv.ops):
+                out.append((tenv, op(tu), 'corpus:d%s(h1) torus 3d' % 'xyz'[kk]))
+        if dim == 2 and mt in ('polar', 'polyneg'):
+            # exponents are transformed too (seeded change C03-8 kept them physical)
+            out.append((env, S(2) ** p, 'corpus:2**l2 %s' % mt))
+            out.append((env, (1 + u ** 2) ** (1 + env.coords[0] * env.coords[1]), 'corpus:(1+u^2)**(1+x*y) %s' % mt))
+            out.append((env, (1 + u ** 2) ** env.ops[1](u), 'corpus:(1+u^2)**dy(u) %s' % mt))
         if (dim, mt) == (2, 'sym'):
             # a coordinate coefficient below a LOGICAL derivative of a symbolic mapping: the chain rule
             # df/dM[i] * dM[i]/dx̂_k of derivatives.py (seeded change C03-5 transposed it)
